@@ -2531,3 +2531,65 @@ func genTable(repo, out string) {
 		fatal(err)
 	}
 }
+
+// genTypes writes Generated/Types.lean: types.CompareKeys / IsSameKey (the order every table, memtable and merge relies on) and
+// utils.LCP (the prefix length Data.Encode stores)
+func genTypes(repo, out string) {
+	pt := parseDir(repo + "/types")
+	pu := parseDir(repo + "/utils")
+	var sb strings.Builder
+	sb.WriteString("/-! GENERATED by /verif/extract (gotrans.go) from /repo/types/types.go and /repo/utils/utils.go on every check run. Do not edit.\n")
+	sb.WriteString("    `compareKeys` = `types.CompareKeys` (Go int result as `Int`; `strings.Compare`, `ParseKey`, `ParseTs` are the parameters\n")
+	sb.WriteString("    `cmpS`, `parseKey`, `parseTs`), `isSameKey` = `types.IsSameKey`, `lcp` = `utils.LCP` (a string is its list of bytes, `a[i]` is\n")
+	sb.WriteString("    `a.getD i 0`, read only below both lengths). `Model/TypesTie.lean` proves them equal to `Key.compareKeys?` and `Codec.lcp`. -/\n")
+	sb.WriteString("set_option linter.unusedVariables false\nnamespace GenTypes\n\n")
+	emit := func(fd *ast.FuncDecl, what string, sp transSpec, pre string) {
+		d := ""
+		err := fmt.Errorf("%s not found", what)
+		if fd != nil {
+			t := &translator{spec: sp}
+			body := t.stmts(fd.Body.List, func() string { return sp.fallOff(sp.stateLn) }, "", "")
+			err = t.err
+			d = fmt.Sprintf("def %s %s : %s :=\n  %s%s\n", sp.leanName, sp.binders, sp.retType, pre, body)
+		}
+		if err != nil {
+			d = fmt.Sprintf("/-- UNTRANSLATABLE: %s -/\ndef %s : Unit := ()\n", strings.ReplaceAll(err.Error(), "-/", "- /"), sp.leanName)
+		}
+		sb.WriteString(d + "\n")
+	}
+	emit(findFunc(pt, "", "CompareKeys"), "types.CompareKeys", transSpec{
+		leanName: "compareKeys",
+		binders:  "{β κ : Type} (cmpS : κ → κ → Int) (parseKey : β → κ) (parseTs : β → Nat) (key1 key2 : β)",
+		retType:  "Int",
+		exprMap: map[string]string{"strings.Compare(ParseKey(key1), ParseKey(key2))": "(cmpS (parseKey key1) (parseKey key2))",
+			"ParseTs(key1)": "(parseTs key1)", "ParseTs(key2)": "(parseTs key2)", "cmp != 0": "(decide (cmp ≠ (0 : Int)))",
+			"1": "(1 : Int)", "-1": "(-1 : Int)", "0": "(0 : Int)"},
+		ret:      func(vals []string, st []string) string { return vals[0] },
+		fallOff:  func(st []string) string { return "(0 : Int)" },
+		panicVal: "(0 : Int)",
+	}, "")
+	emit(findFunc(pt, "", "IsSameKey"), "types.IsSameKey", transSpec{
+		leanName: "isSameKey",
+		binders:  "{β κ : Type} [DecidableEq κ] (parseKey : β → κ) (key1 key2 : β)",
+		retType:  "Bool",
+		exprMap:  map[string]string{"ParseKey(key1)": "(parseKey key1)", "ParseKey(key2)": "(parseKey key2)"},
+		ret:      func(vals []string, st []string) string { return vals[0] },
+		fallOff:  func(st []string) string { return "false" },
+		panicVal: "false",
+	}, "")
+	emit(findFunc(pu, "", "LCP"), "utils.LCP", transSpec{
+		leanName: "lcp",
+		binders:  "(a b : List UInt8)",
+		retType:  "Nat",
+		exprMap:  map[string]string{"min(len(a), len(b))": "(min a.length b.length)", "a[i]": "(a.getD i 0)", "b[i]": "(b.getD i 0)"},
+		state:    []string{"i"}, stateLn: []string{"i"}, stateTy: []string{"Nat"},
+		zero:     map[string]string{"int": "0"}, loopFuel: "(a.length + 1)",
+		ret:      func(vals []string, st []string) string { return vals[0] },
+		fallOff:  func(st []string) string { return "i" },
+		panicVal: "i",
+	}, "let i : Nat := 0\n  ")
+	sb.WriteString("end GenTypes\n")
+	if err := os.WriteFile(out, []byte(sb.String()), 0644); err != nil {
+		fatal(err)
+	}
+}
